@@ -41,8 +41,17 @@ pub struct PropertyDef {
 }
 
 pub mod common;
+pub mod c14;
 #[cfg(feature = "sched")]
 pub mod c09;
+#[cfg(feature = "sched")]
+pub mod c15;
+#[cfg(feature = "sched")]
+pub mod c18;
+#[cfg(feature = "sched")]
+pub mod c11;
+#[cfg(feature = "sched")]
+pub mod c13;
 #[cfg(feature = "sched")]
 pub mod c03;
 #[cfg(feature = "sched")]
@@ -72,6 +81,15 @@ pub fn property(id: &str, ctx: &Ctx) -> Option<PropertyDef> {
         "C12" => Some(c12::def(ctx)),
         #[cfg(feature = "sched")]
         "C09" => Some(c09::def(ctx)),
+        "C14" => Some(c14::def(ctx)),
+        #[cfg(feature = "sched")]
+        "C15" => Some(c15::def(ctx)),
+        #[cfg(feature = "sched")]
+        "C18" => Some(c18::def(ctx)),
+        #[cfg(feature = "sched")]
+        "C11" => Some(c11::def(ctx)),
+        #[cfg(feature = "sched")]
+        "C13" => Some(c13::def(ctx)),
         #[cfg(feature = "sched")]
         "C03" => Some(c03::def(ctx)),
         #[cfg(feature = "sched")]
